@@ -35,6 +35,7 @@ type c12Op struct {
 }
 
 type c12Scn struct {
+	T   string  `json:"t,omitempty"` // stream tag; empty or "seq" for this stream
 	Ops []c12Op `json:"ops"`
 }
 
@@ -239,6 +240,9 @@ func TestVerifC12(t *testing.T) {
 		var s c12Scn
 		if err := json.Unmarshal([]byte(line), &s); err != nil {
 			t.Fatalf("bad scenario %q: %v", line, err)
+		}
+		if s.T != "" && s.T != "seq" {
+			continue // a line of another C12 stream
 		}
 		run(s)
 	}
